@@ -396,13 +396,32 @@ func (h *Hist) actMeltReplay() {
 }
 
 func (h *Hist) actMeltInternal() {
-	// a mint quote of this mint paid by melting ecash of this mint
+	// a mint quote of this mint paid by melting ecash of this mint: a fresh quote, or one that already exists
+	// in whatever state it is in (unpaid, paid, issued), with and without an MPP option
 	amount := []uint64{1, 2, 4, 8, 16}[h.rng.Intn(5)]
-	mq := h.OpMintQuote(mode{}, amount, false, false, true)
+	var mq *hMintQ
+	if keys := sortedInt64(keysOf(h.mq)); len(keys) > 0 && h.rng.Intn(3) == 0 {
+		mq = h.mq[keys[h.rng.Intn(len(keys))]]
+		amount = mq.amount
+	} else {
+		mq = h.OpMintQuote(mode{}, amount, false, false, true)
+		if mq != nil && h.rng.Intn(4) == 0 {
+			// paid from outside (and possibly issued) before anybody melts into it
+			h.EnvSettle(mq)
+			h.OpMintState(mode{}, mq, false)
+			if h.rng.Intn(2) == 0 {
+				h.OpMint(mode{}, mq, h.freshOutputs(cashu.AmountSplit(amount)), 0, false)
+			}
+		}
+	}
 	if mq == nil {
 		return
 	}
-	lq := h.OpMeltQuote(mode{}, 0, mq, 0, true, true, nil)
+	var part uint64
+	if h.cfg.mpp && h.rng.Intn(2) == 0 && amount > 1 {
+		part = 1000 * uint64(1+h.rng.Intn(int(amount-1)))
+	}
+	lq := h.OpMeltQuote(mode{}, 0, mq, part, true, true, nil)
 	if lq == nil {
 		return
 	}
@@ -665,6 +684,8 @@ func histStream(p profile) streamFn {
 		n := p.histQ
 		if tier == "thorough" {
 			n = p.histT
+		} else if tier == "widen" {
+			n = p.histQ * 4
 		}
 		for i := 0; i < n; i++ {
 			cfg := cfgT{feePct: []uint64{0, 1, 1, 2, 5}[rng.Intn(5)], fee0: p.fees[rng.Intn(len(p.fees))]}
